@@ -87,14 +87,18 @@ def wide_worker(arg):
         for X in res:
             k = int(X.short_name[1:])
             headv = (1 << k) - 1 if k else 0
-            for v in (lo - 1, lo, lo + 1, -1, 0, 1, hi - 1, hi, hi + 1, 2 * hi + 1, (1 << 70) + 5, -(1 << 70) - 5,
-                      (0xA5A5A5A5A5A5A5A5A5 >> 3) & hi | (1 << (n - 1) if not signed else 0)):
+            # integers, and floats with integral values inside and far outside the range (2.0**63, 1e19, 1e300 ...)
+            fl = [float(x) for x in (0, 1, -1, 3, 2 ** 31, 2 ** 52) ] + [2.0 ** 63, -(2.0 ** 63), 2.0 ** 64, 1e19, -1e19, 2e19, 1e300, -1e300,
+                                                                      float(2 ** 53), float(hi), float(lo)]
+            for v in [lo - 1, lo, lo + 1, -1, 0, 1, hi - 1, hi, hi + 1, 2 * hi + 1, (1 << 70) + 5, -(1 << 70) - 5,
+                      (0xA5A5A5A5A5A5A5A5A5 >> 3) & hi | (1 << (n - 1) if not signed else 0)] + fl:
+                iv = int(v)                     # a float with an integral value denotes that integer
                 if mode == "t":
-                    cv = v % (1 << n)
+                    cv = iv % (1 << n)
                     if signed and cv > hi:
                         cv -= 1 << n
                 else:
-                    cv = max(lo, min(hi, v))
+                    cv = max(lo, min(hi, iv))
                 raw = cv % (1 << n)
                 word = headv | (raw << k) | (5 << (k + n))
                 nbits = k + n + 3
